@@ -27,6 +27,7 @@ pub fn plan() -> Plan {
         soft_s: (30, 600),
         exhaustive: None,
         min_evaluations: 200,
+        extra: None,
     }
 }
 
